@@ -1,15 +1,18 @@
 """Built-in self-test of the thorough tier: (1) in-memory source variants - every seeded edit of the property must fire
 the named rule, every twin must stay silent; (2) whole-package equivalence transformations - the rules of the property
-must stay silent under each (only meaningful, and only run, when the tree itself raises no violation)."""
+must stay silent under each; (3) the committed corpora - every seeded change of the property is caught, every
+refactoring touching the property's anchor files is silent.  (2) and (3) are only meaningful, and only run, when the
+tree itself raises no violation."""
 
 
 def run_selftest(prop, program, clean=True):
-    from . import variants, equiv
+    from . import variants, equiv, corpus
     a = variants.run_for(prop, program)
     out = dict(a)
     out['misses'] = list(a.get('misses', []))
     if clean:
-        b = equiv.run_for(prop, program)
-        out.update({k: v for k, v in b.items() if k != 'misses'})
-        out['misses'] += list(b.get('misses', []))
+        for mod in (equiv, corpus):
+            b = mod.run_for(prop, program)
+            out.update({k: v for k, v in b.items() if k != 'misses'})
+            out['misses'] += list(b.get('misses', []))
     return out
